@@ -26,8 +26,9 @@ Spec == Init /\ [][Next]_vars
 OwnKing == LET cands == <<0, 7, 56, 63, 27, 36>>
                ok(q) == q # s /\ q # kq /\ q \notin KingAtt[kq]
            IN cands[MinOf({i \in 1..6 : ok(cands[i])})]
-ThePos == [b |-> [x \in Sq |-> IF x = s THEN Mk(col, kind) ELSE IF x = kq THEN Mk(1 - col, KING) ELSE IF x = OwnKing THEN Mk(col, KING) ELSE 0],
-           stm |-> col, cr |-> <<-1,-1,-1,-1>>, ep |-> -1, hmc |-> 0, fmn |-> 1]
+PosWith(ok) == [b |-> [x \in Sq |-> IF x = s THEN Mk(col, kind) ELSE IF x = kq THEN Mk(1 - col, KING) ELSE IF x = ok THEN Mk(col, KING) ELSE 0],
+                stm |-> col, cr |-> <<-1,-1,-1,-1>>, ep |-> -1, hmc |-> 0, fmn |-> 1]
+ThePos == PosWith(OwnKing)     \* (the king's square is bound once: the placement function is evaluated lazily)
 Emit == IF OneKingEach(ThePos) /\ Valid(ThePos)
         THEN PrintT(<<"GEN", CanonFen(ThePos, TRUE)>>) ELSE TRUE
 =============================================================================
